@@ -843,7 +843,7 @@ static void exec_create(Run &R, TaskRt &T, int ti, int oi, const Op &op) {
   }
   if (op.twin) {
     Inst *W = new Inst();
-    long n = 1800000;  // "a sufficiently large caller buffer"
+    long n = op.k > 0 ? op.k : 420000;  // "a sufficiently large caller buffer" (the plan says how large for huge programs)
     W->ext = extbuf_new((size_t)n, 0, 0x00, op.uid ^ 0x77);
     if (W->ext >= 0) {
       int wj = in_lib(R, T.actx, [&] { W->al = lib::create(extbuf_ptr(W->ext), (int)n); });
